@@ -72,14 +72,18 @@ def one(run, g, seed, kind, quick):
         us = [x for x in s.users if s.readable(x)] or s.users
         u = r.choice(us)
         usr = s.world.users[u]
-        args = {'dir': root, 'cmd': kind, 'concurrent': 3,
+        args = {'dir': root, 'cmd': kind, 'concurrent': 5 if kind == 'snapshot' else 3,
                 'password': base64.b64encode(usr.password).decode() if usr.password else None,
                 'key': base64.b64encode(usr.key).decode() if usr.key else None}
         info = {'D': [], 'unknown': False}
         if kind == 'snapshot':
             c = repodrv.Content(r, nblocks=8)
             files = [s.write_file('lv%d.bin' % i, c.make() + r.randbytes(r.randrange(1, 300))) for i in range(r.randrange(1, 4))]
+            # one new chunk many times in a row: several workers store the same object name at the same time
+            block = r.randbytes(250)
+            files.append(s.write_file('lv-rep.bin', r.randbytes(90) + block * 24 + r.randbytes(60)))
             args['paths'] = [str(f) for f in files]
+            args['fsgate'] = True
             info.update(want=s.capture(files), allempty=False)
         elif kind == 'delete':
             rd = s.readable(u)
@@ -150,7 +154,7 @@ def one(run, g, seed, kind, quick):
 
 def run_local(run, quick):
     rtraces, ftraces = [], []
-    combos = [('shared', 'snapshot'), ('plain', 'delete'), ('indep', 'clean')] if quick else \
+    combos = [('shared', 'snapshot'), ('plain', 'delete'), ('indep', 'clean'), ('plain', 'snapshot')] if quick else \
              [(g, k) for g in ('plain', 'same', 'shared', 'indep', 'mixed') for k in ('snapshot', 'delete', 'clean')]
     for i, (g, kind) in enumerate(combos):
         for seed in range(run.seed * 100 + 70 + i, run.seed * 100 + 70 + i + 1):
